@@ -92,7 +92,9 @@ def balanced_outward(source: str, pos: int) -> list:
                 push(result, (left[0], end))
             if left:
                 release_range(pool, left)
-            if not stack:
+            if not stack and pos <= end:
+                # Closed a top-level section that ends at or after given
+                # location: nothing further can contain it
                 return False
         elif token_type == TokenType.PropertyName:
             if prop[0]:
